@@ -29,7 +29,8 @@ TranslateCulprit(x, e) ==
   ELSE IF HasInnerStart(x.tree) THEN <<"inner_start_anchor">>
   ELSE <<e.type, e.where>>
 CulpritOf(x) ==
-  [Inv_EmittedWithoutError |-> TranslateCulprit(x, IF x.outcome = "exception" THEN x.exc ELSE x.exc16),
+  [Inv_EmittedWithoutError |-> TranslateCulprit(x, IF x.outcome = "exception" THEN x.exc ELSE IF x.outcome16 = "exception" THEN x.exc16 ELSE x.emitted_exc),
+   Inv_Utf16VariantEmitted |-> <<"none">>,
    Inv_ProgramWellFormed |-> <<"none">>,
    Inv_VMMatchesLikePattern |-> <<"none">>,
    Inv_VMMatchesLikePattern16 |-> <<"none">>,
@@ -49,7 +50,12 @@ Strings16(x) == StringsUpTo({c \in SeqToSet(x.alpha16) : NoLineBreak(c)}, IF x.m
 
 
 \* "the generated virtual-machine program for C++ is emitted without error" (both programs of pattern.cpp)
-C_Inv_EmittedWithoutError(o) == o.accepted => o.outcome = "ok" /\ o.outcome16 # "exception"
+C_Inv_EmittedWithoutError(o) ==
+  o.accepted => o.outcome = "ok" /\ o.outcome16 # "exception" /\ (o.fix16 = "ok" => o.emitted # "exception")
+\* the emitted C++ carries a second program for 16-bit wchar_t (UTF-16 wide strings) whenever the rewriting for UTF-16
+\* changes the pattern, i.e. whenever a character of the pattern does not fit one code unit
+C_Inv_Utf16VariantEmitted(o) ==
+  o.accepted /\ o.emitted = "ok" /\ o.fix16 = "ok" /\ o.tree16 # o.tree => o.emitted_has16
 \* the control flow is closed: targets exist, no thread runs off the end, range lists as the C++ constructors demand
 C_Inv_ProgramWellFormed(o) ==
   o.accepted =>
@@ -75,9 +81,10 @@ C_Inv_CppMatcherAgrees(o) ==
 \* clauses the observation violates.  The invariants only look the names up, so that TLC -- which reports the first
 \* violated invariant of a state only -- still hands over *all* violated clauses of the case with the state it prints
 \* (a clause under a known finding cannot mask another clause on the same case).
-ClauseNames == {"Inv_EmittedWithoutError", "Inv_ProgramWellFormed", "Inv_VMMatchesLikePattern", "Inv_VMMatchesLikePattern16", "Inv_CppMatcherAgrees"}
+ClauseNames == {"Inv_EmittedWithoutError", "Inv_Utf16VariantEmitted", "Inv_ProgramWellFormed", "Inv_VMMatchesLikePattern", "Inv_VMMatchesLikePattern16", "Inv_CppMatcherAgrees"}
 Holds(n, x) ==
   CASE n = "Inv_EmittedWithoutError" -> C_Inv_EmittedWithoutError(x)
+    [] n = "Inv_Utf16VariantEmitted" -> C_Inv_Utf16VariantEmitted(x)
     [] n = "Inv_ProgramWellFormed" -> C_Inv_ProgramWellFormed(x)
     [] n = "Inv_VMMatchesLikePattern" -> C_Inv_VMMatchesLikePattern(x)
     [] n = "Inv_VMMatchesLikePattern16" -> C_Inv_VMMatchesLikePattern16(x)
@@ -92,6 +99,7 @@ Next == /\ i = 0
         /\ UNCHANGED blk
 
 Inv_EmittedWithoutError == "Inv_EmittedWithoutError" \notin failing
+Inv_Utf16VariantEmitted == "Inv_Utf16VariantEmitted" \notin failing
 Inv_ProgramWellFormed == "Inv_ProgramWellFormed" \notin failing
 Inv_VMMatchesLikePattern == "Inv_VMMatchesLikePattern" \notin failing
 Inv_VMMatchesLikePattern16 == "Inv_VMMatchesLikePattern16" \notin failing
